@@ -83,6 +83,7 @@ struct Peer {
 	bool raw = false;
 	int frozen = 0;                 // answers to the next `frozen` queries are lost before they reach the peer
 	int flips = 0;                  // re-deliveries with changed case so far (each may add one entry to the server's memories)
+	size_t q_epoch = 0;             // R.q.size() when the current session of this peer began (queries before that belong to an earlier session on the slot)
 	size_t cache_floor = 0;         // saved_order.size() when the session last lowered its fragment size (answers before that were cut for a larger size)
 };
 
@@ -666,7 +667,7 @@ struct Engine {
 		p.up_queue.clear(); p.up_active = false; p.up_off = 0; p.up_frag = 0;
 		int keep = (int)p.zs.size() - 1;
 		p.st = Stream(); p.st.pkt = keep;          // packets read for the earlier session are not expected in the new one
-		p.prev_acks.clear(); p.flips = 0; p.frozen = 0; p.raw = false; p.saved_order.clear(); p.cache_floor = 0;
+		p.prev_acks.clear(); p.flips = 0; p.frozen = 0; p.raw = false; p.saved_order.clear(); p.cache_floor = 0; p.q_epoch = R.q.size();
 		R.n_recycled++;
 		// The new session happens to send a ping whose name (user id, acknowledgement fields, cache-miss counter) equals one of the
 		// earlier session's last answered pings: one chance in 65536 for a real client, certain for this one.  Nothing the server
@@ -722,7 +723,8 @@ struct Engine {
 		// queries the server has read but not answered yet (it holds up to two in lazy mode): any event -- the arrival of the repeat
 		// itself, the send-real-soon timer -- may make it answer and remember them before the repeat is looked up, which pushes the
 		// oldest entries out of its memories; the windows are narrowed by their number
-		int npend = 0; for (size_t k = 0; k < R.q.size(); k++) if (R.q[k].peer == me && !R.q[k].redelivery && R.q[k].t_delivered && R.q[k].answers == 0) npend++;
+		// (only queries of the current session: what an earlier session on the slot left unanswered is a new query to the server now)
+		int npend = 0; for (size_t k = p.q_epoch; k < R.q.size(); k++) if (R.q[k].peer == me && !R.q[k].redelivery && R.q[k].t_delivered && R.q[k].answers == 0) npend++;
 		int r_extra = p.flips + npend;
 		int nc = std::max(0, 4 - r_extra), nd = std::max(0, 15 - r_extra), np = std::max(0, 30 - r_extra);
 		int cd = 0, cp = 0, cc = 0;
@@ -735,7 +737,7 @@ struct Engine {
 			if (r.ack.is_ping) { if (cp < np) qp.push_back(qi); cp++; }
 			else if (r.ack.is_data) { if (cd < nd) qd.push_back(qi); cd++; }
 		}
-		for (size_t k = 0; k < R.q.size(); k++) if (R.q[k].peer == me && !R.q[k].redelivery && R.q[k].t_delivered && R.q[k].answers == 0) pend.push_back((int)k);
+		for (size_t k = p.q_epoch; k < R.q.size(); k++) if (R.q[k].peer == me && !R.q[k].redelivery && R.q[k].t_delivered && R.q[k].answers == 0) pend.push_back((int)k);
 		int window; std::vector<int> *src;
 		switch (t.pick({4, 3, 3, 3})) { case 0: window = 1; src = &cache; break; case 1: window = 2; src = &qd; break; case 2: window = 2; src = &qp; break; default: window = 3; src = &pend; break; }
 		if (src->empty()) { src = &cache; window = 1; }
